@@ -416,6 +416,80 @@ def _mqtt_install(lib):
         raise RaiseSig(_exc(I, "CancelledError", node))
     lib.await_opaque = {"Task": await_task}
 
+    # ---- futures kept in locals (asyncio.ensure_future / asyncio.wait / asyncio.wait_for), A-AIO
+    def ensure_future(I, a, k, fr, n):
+        fut = LibObj("future", coro=a[0], state="pending", value=None, exc=None)
+        I.c.heap.set("ghost.tasks", g(I, "ghost.tasks") + 1)  # a task of its own from now on
+
+        def attr(I2, name, fr2, n2):
+            if name == "done":
+                return Builtin("Future.done", lambda I3, a3, k3: fut.state != "pending")
+            if name == "result":
+                def result(I3, a3, k3):
+                    if fut.state == "pending":
+                        raise RaiseSig(_exc(I3, "InvalidStateError", n2))
+                    if fut.exc is not None:
+                        raise RaiseSig(fut.exc)
+                    return fut.value
+                return Builtin("Future.result", result)
+            if name == "cancel":
+                def cancel(I3, a3, k3):
+                    if fut.state == "pending":
+                        fut.state, fut.exc = "cancelled", _exc(I3, "CancelledError", n2)
+                        I3.c.heap.set("ghost.tasks", g(I3, "ghost.tasks") - 1)
+                        return True
+                    return False
+                return Builtin("Future.cancel", cancel)
+            return MISSING
+        fut.attr = attr
+        return fut
+    lib.ext_calls["asyncio.ensure_future"] = ensure_future
+
+    def complete(I3, fut, fr, n):
+        try:
+            fut.value = I3.do_await(fut.coro, fr, n)
+        except RaiseSig as r:
+            fut.exc = r.exc
+        fut.state = "done"
+        I3.c.heap.set("ghost.tasks", g(I3, "ghost.tasks") - 1)
+
+    def wait(I, a, k, fr, n):
+        futs = list(I.lib.iterate(I, a[0]))
+        if not all(isinstance(f, LibObj) and f.kind == "future" for f in futs):
+            raise Unsupported("asyncio.wait on something that is not a local future")
+        timeout = k.get("timeout", a[1] if len(a) > 1 else None)
+
+        def run(I3):
+            for f in futs:
+                if f.state != "pending":
+                    continue
+                # with a timeout the future may still be pending when wait returns - and wait does NOT cancel it (unlike wait_for)
+                if timeout is not None and I3.c.branch(I3.c.fresh("wait_timed_out", BoolS), "asyncio.wait-timeout"):
+                    continue
+                complete(I3, f, fr, n)
+            return ([f for f in futs if f.state != "pending"], [f for f in futs if f.state == "pending"])
+        return coro(run)
+    lib.ext_calls["asyncio.wait"] = wait
+
+    def wait_for(I, a, k, fr, n):
+        aw = a[0]
+
+        def run(I3):
+            if I3.c.branch(I3.c.fresh("wait_for_timed_out", BoolS), "asyncio.wait_for-timeout"):
+                if isinstance(aw, LibObj) and aw.kind == "future" and aw.state == "pending":
+                    aw.state, aw.exc = "cancelled", _exc(I3, "CancelledError", n)
+                    I3.c.heap.set("ghost.tasks", g(I3, "ghost.tasks") - 1)
+                raise RaiseSig(_exc(I3, "TimeoutError", n))  # the awaited thing is cancelled by wait_for
+            if isinstance(aw, LibObj) and aw.kind == "future":
+                if aw.state == "pending":
+                    complete(I3, aw, fr, n)
+                if aw.exc is not None:
+                    raise RaiseSig(aw.exc)
+                return aw.value
+            return I3.do_await(aw, fr, n)
+        return coro(run)
+    lib.ext_calls["asyncio.wait_for"] = wait_for
+
     def gather(I, a, k, fr, n):
         def run(I3):
             for cv in a:  # A-AIO: all are run; the first exception propagates (sequential order is one legal schedule)
